@@ -95,6 +95,24 @@ def _est_configs():
     def nw_none():
         return NadarayaWatsonRegressor(random_state=0), {}
 
+    def sgd_warm():
+        from sklearn.linear_model import SGDClassifier
+
+        from skactiveml.classifier import SklearnClassifier
+
+        return SklearnClassifier(SGDClassifier(loss="log_loss", warm_start=True, max_iter=3, tol=None, random_state=0), classes=[0, 1, 2],
+                                 random_state=0), {}
+
+    def sgdr_warm():
+        from sklearn.linear_model import SGDRegressor
+
+        from skactiveml.regressor import SklearnRegressor
+
+        return SklearnRegressor(SGDRegressor(warm_start=True, max_iter=3, tol=None, random_state=0), random_state=0), {}
+
+    # estimators whose own fit is NOT history-free (warm start): only the wrapper's fresh copy makes fit history-free
+    out.append(("SklearnClassifier[SGD,warm_start]", "clf", sgd_warm, dict(partial=True)))
+    out.append(("SklearnRegressor[SGD,warm_start]", "reg", sgdr_warm, dict(partial=True)))
     out.append(("ParzenWindowClassifier[gamma=mean]", "clf", pwc_mean, dict(freq=True)))
     out.append(("ParzenWindowClassifier[metric_dict=None]", "clf", pwc_none, dict(freq=True)))
     out.append(("ParzenWindowClassifier[classes=None]", "clf", pwc_noclasses, dict(freq=True)))
